@@ -173,12 +173,16 @@ func genBase(r *lib.Rng, nconn int, concrete bool, clean bool) *base {
 		b.nodes = append(b.nodes, o)
 		cur = o.Out
 	}
-	// some handlers do not return their argument but a fixed value of their declared type
+	// some handlers do not return their argument but a fixed value of their declared type; some
+	// are declared in the stream form
 	for i := range b.nodes {
 		for _, h := range []*H{b.nodes[i].Pre, b.nodes[i].Post} {
 			if h != nil && r.Chance(1, 3) {
 				opts := optionsFor(h.Ty)
 				h.Ret = opts[r.Intn(len(opts))]
+			}
+			if h != nil && r.Chance(1, 3) {
+				h.Strm = true
 			}
 		}
 	}
@@ -629,7 +633,7 @@ func genPair(i int) *Case {
 	case 5: // state handlers declared for b on a node of type a
 		c.Out = a
 		c.State = 1
-		h := &H{State: 1, Ty: b}
+		h := &H{State: 1, Ty: b, Strm: (i/pairShapes)%3 == 0}
 		if i%2 == 0 {
 			add(Op{K: "node", Key: 2, In: a, Out: a, Pre: h})
 		} else {
